@@ -39,7 +39,7 @@ MANIFEST = {
             "raw body after a failed lazy parse.",
     "note": "Sampling over an unbounded input space. Trusts the reference encoder/walker in /verif. NaN-bearing float fields "
             "are excluded from byte identity (outside C01's value domain).",
-    "technique": "Hypothesis generation + mutation programs; round-trip / metamorphic oracles gated by a reference template walker",
+    "technique": "Hypothesis generation + mutation programs; round-trip / metamorphic oracles gated by a reference template walker; thorough tier adds coverage-guided atheris campaigns with the same oracle inside the target",
 }
 
 SER = UDPMessageSerializer()
@@ -305,16 +305,23 @@ def _touch(msg, what):
 
 
 def laws(ctx, case):
-    out = []
     dg0 = ref_datagram(case["msg"])
     dg = apply_mutations(case["msg"], dg0, [tuple(m) for m in case["muts"]])
-    deferred = case["deferred"]
-    inspect = case["inspect"]
     classes = []
     if dg != dg0:
         classes.append("mutated")
     for m in case["muts"]:
         classes.append("mut:" + m[0])
+    tk = gt.case_classes(case["msg"])
+    if any(c.startswith("text_bytes") for c in tk):
+        classes.append("text_shapes")
+    return laws_on_datagram(ctx, dg, case["deferred"], case["inspect"], classes,
+                            ref_name=case["msg"]["name"] if dg == dg0 and not case["muts"] else None)
+
+
+def laws_on_datagram(ctx, dg, deferred, inspect, classes, ref_name=None):
+    """the three clauses of the property for one received datagram (however it was produced)"""
+    out = []
     sp = ref_split(dg)
     # ---- decode ----
     try:
@@ -331,8 +338,8 @@ def laws(ctx, case):
             classes.append("rejected_by_header")
         if ctx is not None:
             ctx.case((dg, tuple(inspect), deferred), nontrivial=False, classes=classes)
-        if dg == dg0 and not case["muts"]:
-            out.append(("decode:reference-datagram-refused", "%s: reference-encoded datagram refused: %r" % (case["msg"]["name"], e)))
+        if ref_name is not None:
+            out.append(("decode:reference-datagram-refused", "%s: reference-encoded datagram refused: %r" % (ref_name, e)))
         return out
     # what does the format say about this body?
     status, has_nan, wname = "unknown", False, None
@@ -351,9 +358,6 @@ def laws(ctx, case):
             status, has_nan, wname = walk_body(bw, sp["offset"])
     if not canon:
         classes.append("noncanonical_zerocoding")
-    tk = gt.case_classes(case["msg"])
-    if any(c.startswith("text_bytes") for c in tk):
-        classes.append("text_shapes")
     # ---- inspections ----
     parsed = not deferred
     failed = None
@@ -432,10 +436,17 @@ def shards(tier):
         sh.append({"kind": "gen", "n": 9000 if th else 900})
     for i in range(4):
         sh.append({"kind": "zc", "n": 6000 if th else 600})
+    if th:
+        for i in range(4):
+            sh.append({"kind": "atheris", "runs": 150000, "offset": i})
     return sh
 
 
 def run_shard(ctx, shard):
+    if shard["kind"] == "atheris":
+        from vlib.fuzz import run_campaign
+        run_campaign(ctx, "checks.c02", shard["runs"], 1200, fuzz_corpus(), "datagram", shard["offset"])
+        return
     strat = CASE if shard["kind"] == "gen" else CASE_ZC
     hyp_run(ctx, strat, lambda case: laws(ctx, case), shard["n"])
 
@@ -444,7 +455,40 @@ def summarize(classes):
     pass
 
 
+_FUZZ_INSPECT = [["never"], ["header"], ["blocks"], ["header", "blocks"], ["to_dict"], ["getitem", "repr"], ["repr"], ["blocks", "to_dict"]]
+
+
+def fuzz_corpus():
+    from vlib.fuzz import sample_strategy
+    out = []
+    for c in sample_strategy(gt.message_case(allow_str=False), 60, seed=2):
+        dg = ref_datagram(c)
+        if len(dg) <= 400:
+            for mode in (0, 1, 6, 9):
+                out.append(bytes([mode]) + dg)
+    return out
+
+
+def fuzz_one(data: bytes):
+    """atheris target: byte 0 picks lazy/eager and the inspection order, the rest is the datagram as received"""
+    if len(data) < 7:
+        return [], False, ()
+    deferred = not (data[0] & 1)
+    inspect = _FUZZ_INSPECT[(data[0] >> 1) % len(_FUZZ_INSPECT)]
+    seen = []
+
+    class _C:
+        def case(self, case, nontrivial=True, classes=()):
+            seen.append((nontrivial, tuple(classes)))
+    res = laws_on_datagram(_C(), data[1:], deferred, inspect, [])
+    nt = bool(seen and seen[-1][0])
+    return res, nt, [c for c in (seen[-1][1] if seen else ()) if c in ("parse_failed", "identity_required", "rejected_by_header",
+                                                                            "noncanonical_zerocoding", "eager_body_refused")]
+
+
 def replay(ctx, case):
+    if isinstance(case, dict) and "fuzz" in case:
+        return fuzz_one(bytes(case["data"]))[0]
     case = dict(case)
     case["muts"] = [tuple(m) for m in case["muts"]]
     return laws(None, case)
